@@ -12,7 +12,7 @@ import (
 	"time"
 )
 
-var obSuffixRe = regexp.MustCompile(`(@ret\d+|#\d+)`)
+var obSuffixRe = regexp.MustCompile(`(@ret\d+|@path\d+|#\d+|inl:[^/]*/)`)
 
 type Baseline struct {
 	// property -> obligation name -> "unsat" | "undecided"
@@ -77,9 +77,28 @@ func (e *Engine) obligationsFor(prop string) *propRun {
 		keys = append(keys, k)
 	}
 	sort.Strings(keys)
+	// the functions that decide a property: those carrying a clause labelled with it, and the functions under
+	// contract they call directly (the caller's proof of the property rests on the callee's contract, so a change
+	// inside such a callee that breaks its contract breaks the property's proof as well)
+	selected := map[string]bool{}
+	for _, k := range keys {
+		if e.cs.Funcs[k].propsOf()[prop] {
+			selected[k] = true
+		}
+	}
+	for _, k := range keys {
+		if !e.cs.Funcs[k].propsOf()[prop] || e.funcs[k] == nil {
+			continue
+		}
+		for _, ck := range e.contractCallees(e.funcs[k]) {
+			if cfc := e.cs.Funcs[ck]; cfc != nil && !cfc.Trusted && !cfc.NoBody && e.funcs[ck] != nil {
+				selected[ck] = true
+			}
+		}
+	}
 	for _, k := range keys {
 		fc := e.cs.Funcs[k]
-		if !fc.propsOf()[prop] {
+		if !selected[k] {
 			continue
 		}
 		if fc.Trusted || fc.NoBody {
@@ -480,6 +499,11 @@ func cmdBaseline(repo, verif string, timeout int) int {
 	b := &Baseline{Props: map[string]map[string]string{}}
 	bad := 0
 	for _, p := range ps {
+		// a fresh engine per property, as in a check: verifying a function completes contract data (parameters of
+		// implemented interface methods) that the selection of a later property would otherwise see
+		if e2, err := loadEngine(repo, verif+"/spec"); err == nil {
+			e = e2
+		}
 		pr := e.obligationsFor(p)
 		dir := scratchDir()
 		solveAll(e, pr.ctxs, pr.obs, solveOpts{timeout: tierTimeout("quick", timeout), dir: dir})
